@@ -37,9 +37,12 @@ PARTIAL = {
         "hypothesis: every expected-output group is empty or ends with exactly one newline and has no other trailing "
         "white space (`want.rstrip()` drops it) — counterexample proved, finding doctest:want-trailing-whitespace-dropped",
     "Docstring.every_tag_rendered_or_reported_partial":
-        "hypothesis: a field whose handler is `handled_elsewhere` (ivar, cvar, var) stands in a module or class docstring; "
-        "in a function or attribute docstring it is dropped without output or report — counterexample proved, finding "
-        "field:var-in-function-silently-dropped",
+        "hypothesis `inScope`: (1) a field whose handler is `handled_elsewhere` (ivar, cvar, var) stands in a module or class "
+        "docstring — in a function or attribute docstring it is dropped without output or report (finding "
+        "field:var-in-function-silently-dropped); (2) a `type` field with a name in a module/class docstring names a variable "
+        "that is assigned or documented by ivar/cvar/var — otherwise the type goes to an Attribute without kind that is never "
+        "displayed (finding field:type-of-constructor-parameter-in-class-docstring-hidden). `kept_iff_in_scope` proves these "
+        "are exactly the lost cases over the live handler table; counterexamples proved.",
 }
 RULE = ("documents from a structure-aware generator (paragraphs of words with punctuation and markup-looking characters "
         "that are legal in the format, nested bullet/ordered lists, inline markup incl. nested, links with and without "
@@ -186,7 +189,8 @@ def impl_visible(text: str) -> Tuple[str, str]:
     mod = scratch_system().allobjects["m"]
     try:
         with contextlib.redirect_stdout(io.StringIO()):
-            h = flatten(pd.to_stan(mod.docstring_linker))
+            # a fresh parse: a failed to_node() leaves an empty cached document behind
+            h = flatten(E.parse_docstring(text, []).to_stan(mod.docstring_linker))
         rendered = "ok " + enc(text_of(dom(h), sep=False))
     except Exception as e:
         rendered = "raises:" + type(e).__name__ + ":" + str(e).split(":")[-1].strip()
@@ -426,8 +430,11 @@ def stream_visible(ctx: Ctx) -> None:
     reqs, pay = [], []
     n = 1500 if ctx.quick else 30000
     outs = []
+    from pydoctor.epydoc.markup import epytext as E
+    todo = [("S{%s}" % sym, False) for sym in E.SYMBOLS]         # every symbol of the live table, once
     for _ in range(n):
-        s, nested = gen_inline(ctx.rng, 0, True)
+        todo.append(gen_inline(ctx.rng, 0, True))
+    for s, nested in todo:
         s = " ".join(s.split(" ")) if ctx.rng.random() < 0.8 else s   # mostly single blanks; sometimes runs of blanks survive
         s = s.strip()
         if not s or re.match(r"(-|\d+\.|@\w+.*:|>>>)( |$)", s) or s.endswith("::") or "M{" in s:
@@ -454,7 +461,7 @@ def stream_visible(ctx: Ctx) -> None:
             if rendered.startswith("raises"):
                 multi = (re.search(r"C\{[^{}]*  ", s) or "  " in dec(nodes_text.split()[1]) or "\u00a0" in s) if nodes_text.startswith("ok") else False
                 sig = ("html2stan:nbsp-entity:docstring-falls-back-to-plaintext" if ("undefined entity" in rendered and multi)
-                       else "epytext:to_stan-" + rendered.rsplit(":", 1)[0])
+                       else "epytext:to_stan-" + ":".join(rendered.split(":")[:2]))
                 ctx.fail(sig, {"paragraph": s, "exception": rendered}, "rendering a paragraph the parser accepted raises: " + rendered)
             elif nodes_text.startswith("ok") and dec(rendered.split()[1] if len(rendered.split()) > 1 else "u:").replace("\u00a0", " ") != \
                     dec(nodes_text.split()[1] if len(nodes_text.split()) > 1 else "u:").replace("\u00a0", " "):
